@@ -65,6 +65,25 @@ def run_case(case, prefix=None):
                 model.apply(["open_rx_pipe", op[1], bytes.fromhex(ADDR[op[2]])])
                 if op[1] == 0:
                     seen_p0_open = True
+            elif k == "bad":
+                # a call the driver refuses (the application catches the exception and carries on): nothing may change,
+                # in particular the radio must not be left in RX mode with CE low
+                try:
+                    if op[1] == "orx-pipe6":
+                        r.open_rx_pipe(6, bytes.fromhex(ADDR["B"]))
+                    elif op[1] == "orx-pipe-1":
+                        r.open_rx_pipe(-1, bytes.fromhex(ADDR["B"]))
+                    elif op[1] == "orx-empty":
+                        r.open_rx_pipe(op[2], b"")
+                    elif op[1] == "crx-pipe6":
+                        r.close_rx_pipe(6)
+                    refused = False
+                except (IndexError, ValueError):
+                    refused = True
+                if not refused:
+                    res.inconclusive = "%r was not refused (documented or not, outside C08)" % (op,)
+                    return res
+                res.label("refused-call")
             elif k == "crx":
                 r.close_rx_pipe(op[1])
                 model.apply(["close_rx_pipe", op[1]])
@@ -206,7 +225,8 @@ def run_case(case, prefix=None):
 
 
 ALPHA = [["orx", 0, "A"], ["orx", 0, "A2"], ["orx", 0, "As"], ["orx", 1, "B"], ["crx", 0], ["crx", 1], ["otx", "A"],
-         ["otx", "T"], ["otx", "Tp"], ["aa", "on"], ["aa", "off"], ["aa", "p0off"], ["ack", True], ["send"], ["ctx"], ["listen", True], ["listen", False]]
+         ["otx", "T"], ["otx", "Tp"], ["aa", "on"], ["aa", "off"], ["aa", "p0off"], ["ack", True], ["send"], ["ctx"], ["listen", True], ["listen", False],
+         ["bad", "orx-pipe6"], ["bad", "orx-empty", 0]]
 ALPHA_LITE = [o for o in ALPHA if o[0] != "aa"]
 
 
@@ -227,7 +247,7 @@ def _enum(depth, aws, drv="full", core=False, min_depth=1):
 def strategy(drv="full"):
     from hypothesis import strategies as st
     alpha = ALPHA_LITE if drv == "lite" else ALPHA
-    extra = [["otx", "Ts"], ["orx", 2, "B"], ["orx", 1, "As"]]
+    extra = [["otx", "Ts"], ["orx", 2, "B"], ["orx", 1, "As"], ["bad", "orx-pipe-1"], ["bad", "orx-empty", 1], ["bad", "orx-empty", 3], ["bad", "crx-pipe6"]]
     return st.fixed_dictionaries({
         "drv": st.just(drv), "aw": st.sampled_from([3, 4, 5]),
         "ops": st.lists(st.sampled_from(alpha + extra), min_size=1, max_size=40),
